@@ -191,15 +191,22 @@ static int h_ledger_live (void) {
   return n;
 }
 
-void harness (void);
+/* entry point: harness(), or -DH_ENTRY=name (obligations that share one goto binary and are selected
+   with cbmc --function name; the native replay build gets the same -DH_ENTRY) */
+#ifdef H_ENTRY
+#define H_ENTRY_FN H_ENTRY
+#else
+#define H_ENTRY_FN harness
+#endif
+void H_ENTRY_FN (void);
 #ifdef REPLAY
 int main (int argc, char **argv) {
   if (argc > 1) h_replay_load (argv[1]);
-  harness ();
+  H_ENTRY_FN ();
   fprintf (stderr, "REPLAY: completed without violation\n");
   return 0;
 }
-#else
-int main (void) { harness (); return 0; }
+#elif !defined(H_NO_MAIN_HARNESS)
+int main (void) { H_ENTRY_FN (); return 0; }
 #endif
 #endif
